@@ -237,7 +237,7 @@ def mutate(rnd: random.Random, grammar: str, s: str) -> tuple[str, str]:
 
 RUN_CHARS = {
     "version": [" ", "\t", "\x0b", "0", "1", ".", "-", "_", "+", "a", "1.", ".0", "a-", "a.", "post", "-1", "!", "v", "\xa0", "\n"],
-    "vconstraint": [" ", "\t", ",", "|", "||", ".*", "*", ".x", "=", "<", ">", "~", "^", "1", "0.", ".0", "-", "a-", " ,", ", ", " || ", "x", "\n", "-1", "dev"],
+    "vconstraint": [" ", "\t", ",", "|", "||", ".*", ".*", ".*", "*", ".x", "=", "<", ">", "~", "^", "1", "0.", ".0", "-", "a-", " ,", ", ", " || ", "x", "\n", "-1", "dev"],
     "generic": [" ", "\t", ",", "|", "'", '"', "a", "a'", "=", "!", "'a' ", " in", "in ", "not ", "\n", "\x0b", " ,", "a "],
     "marker": [" ", "\t", "(", ")", '"', "'", "\\", '\\"', "a", "=", " and ", " or ", "in ", "not ", "3.", ".8", "|", ",", " ,", "\n"],
     "requirement": [" ", "\t", "a", "-", ".", "_", ",", "[", "]", "(", ")", "=", "<", "1.", ".0", "@", ";", "/", "a,", "[a]", "%", "#"],
